@@ -53,7 +53,7 @@ _p("C11", ["c11_shacl"], ["schemas"],
 _p("C12", ["filtering", "c20_config"], ["pipeline"],
    "Deductive: the threshold is applied once, on raw candidates (filter contracts with the counting recurrence; >= from the statement), the range check of the "
    "argument, frequency = n/N. Monotonicity over pairs of thresholds on whole runs: " + MON)
-_p("C13", ["shexing"], ["pipeline"],
+_p("C13", ["shexing", "serializers"], ["pipeline"],
    "Deductive: the tuning pipeline rewrites exactly what each switch documents (cardinality after tuning = documented function of the cardinality and "
    "probability before; counts, kinds, properties never written; with every switch off nothing is written; disable_comments touches comments only; a "
    "disjunction keeps property, cardinality and figures). Presentation options and decimals rounding on whole runs: " + MON)
@@ -61,7 +61,10 @@ _p("C14", ["instances", "profiling"], ["pipeline"],
    "Deductive: the inverse counting step is the mirror of the direct one (same clause text on the third component, kind of the subject, shape kinds only "
    "for IRI subjects) and leaves the outgoing features of the object untouched; both threshold filters carry the same contract. The three-run metamorphic "
    "relation (with / without inverse_paths / reversed graph): " + MON)
-_p("C15", [], ["schemas"], MON)
+_p("C15", ["c15_endpoint"], ["schemas"],
+   "Deductive (under assumed SPARQL/HTTP contracts): per-node memoisation of the endpoint graph - the first request for a node and direction sends one "
+   "query, later ones none; with the cache off every request sends one; hence caching never sends more queries (ghost query counter). Equality of the "
+   "extracted shapes with a local run is decided with an in-process SPARQL evaluator substituted for the HTTP client: bounded (schemas.py).")
 _p("C16", ["instances", "c16_ns"], ["pipeline"],
    "Deductive: counter invariant of the instance cap (every class counter <= limit, an instantiation triple is rejected exactly when its class is full, early "
    "stop only when the number of full classes reaches the number of target classes), proved per step with frames. Namespace filter and composition: " + MON)
@@ -72,7 +75,10 @@ _p("C18", ["c18_state", "c20_config"], ["history"],
    "Deductive: buffer invariant of the ShExC serializer (sink text ++ pending lines grows by exactly the written line, across the 5000-line flush; file sink "
    "assumed to append), cache invariant of Shaper.shex_graph (the shapes that are serialised were computed for this call's threshold). Call histories of "
    "length <= 3, pairs of Shapers, outputs > 10 000 lines: bounded (history.py).")
-_p("C19", [], ["determinism"], MON)
+_p("C19", ["c05_tokens"], ["static.c19_scan", "determinism"],
+   "Deductive/syntactic: the finite list of nondeterminism sources (set constructions, random, id, hash) is recomputed from the tree on every run and must equal "
+   "the reviewed list; membership-only sets are checked (syntactically) never to be iterated; the shapes prefix is proved to be the first free default, so "
+   "random is reached only when all four are taken. Byte-identity across processes with different hash seeds: bounded (determinism.py, fresh subprocesses).")
 _p("C20", ["c20_config"], [],
    "Loop-free validation code of Shaper.__init__ / shex_graph verified against the reference predicate of the statement over fully symbolic arguments "
    "(presence flags and values); one obligation per program path and exception edge, so the discharge is a complete proof over the whole argument product. "
